@@ -28,8 +28,8 @@ PROPS = {
         "variants": REL,
         "budget_s": (30, 1500),
         "min_nontrivial": {"quick": 500, "thorough": 5000},
-        "must_observe": ["exhaustive_budget_sweeps", "exempt_guard_entered"],
-        "rule": PROG + "x random flag sets, plus directed programs whose last operation or an operator-internal cost check crosses the budget. "
+        "must_observe": ["exhaustive_budget_sweeps", "exempt_guard_entered", "cost_above_2^62"],
+        "rule": PROG + "x random flag sets, plus directed programs whose last operation or an operator-internal cost check crosses the budget and unknown-extension softforks with declared costs around 2^62, 2^63 and 2^64 (probed at u64::MAX instead of the 5e7 stand-in). "
                 "Each program is run at budget 0 (cost C) and then at {C, C+1, 2C, u64::MAX, random>=C} (must be identical) and {C-1, C-2, C/2, 1, random<C} "
                 "(must be CostExceeded); every budget 1..C+2 exhaustively when C<=4000; when the GuardEnter hook reports a cost-exempt guard the smallest "
                 "succeeding budget is located by bisection and monotonicity asserted around it. Non-trivial: succeeded at 0 with C>=100 and >=6 budgets swept.",
@@ -137,11 +137,12 @@ PROPS = {
         "variants": {"quick": ["rel", "dbg"], "thorough": ["rel", "dbg"]},
         "budget_s": (30, 1500),
         "min_nontrivial": {"quick": 2000, "thorough": 20000},
-        "must_observe": ["alloc_failed_OutOfMemory", "alloc_failed_TooManyAtoms", "alloc_failed_TooManyPairs", "program_sweeps_heap", "program_sweeps_atoms", "program_sweeps_pairs", "decoder_sweeps"],
+        "must_observe": ["alloc_failed_OutOfMemory", "alloc_failed_TooManyAtoms", "alloc_failed_TooManyPairs", "gc_runs_compared_with_plain_runs", "program_sweeps_heap", "program_sweeps_atoms", "program_sweeps_pairs", "decoder_sweeps"],
         "rule": "(1) Lock-step histories: the same random allocator history runs on an allocator with a 1-600 byte heap limit and atom/pair counters pre-loaded (add_ghost_*) to 0-40 from 62,500,000, and on an unlimited shadow; "
                 "the shadow's measured deltas predict for every operation whether the limited one must succeed or fail and with which error; after every op counts<=caps, failed ops leave counts and all live node contents unchanged. "
                 "(2) Headroom sweeps of whole programs: for heap/atoms/pairs every room d in 0..need+2 is run; success set must be upward closed, failures must carry the matching error, successes equal the unlimited result, and "
-                "for guard-free programs the minimal room equals the final delta. (3) node_from_bytes_backrefs and the legacy decoder swept together around the pair cap. Non-trivial: a sweep/history saw both a limit failure and a success next to the cap.",
+                "for guard-free programs the minimal room equals the final delta; the swept programs include the directed set that forces every outcome of a reclaiming restore, and a run with ENABLE_GC must report the same final counts as the same run without it "
+                "(so the counts the caps are enforced on are the real usage; runs with an inline-substring copy are left to the recorded C12/C04 finding). (3) node_from_bytes_backrefs and the legacy decoder swept together around the pair cap. Non-trivial: a sweep/history saw both a limit failure and a success next to the cap.",
         "assumptions": COMMON_ASSUMPTIONS + ["'would exceed the cap' is judged with the allocator's own per-operation deltas measured on an unlimited twin (the accounting itself is C12's subject)"],
     },
     "C14": {
@@ -348,7 +349,8 @@ PROPS = {
                 "GC-candidate operators) plus directed programs forcing each MaybeRestore outcome; every case is run with "
                 "flags F and F|ENABLE_GC on identically prepared allocators (unlimited, and heap/atom/pair caps placed inside "
                 "the run's allocation need) at budgets {0, C, C-1, random}. A case is non-trivial when the allocated_* counters "
-                "of the two runs differ, i.e. GC really reclaimed memory.",
+                "of the two runs differ, i.e. GC really reclaimed memory. Limits are biased to the exact need, one short and one spare. A heap-only difference is attributed to the recorded finding only when it equals the difference "
+                "in bytes copied by substrings of inline atoms (InlineSubstrCopy hook events) and result, cost, atom and pair counts agree; everything else is a violation.",
         "assumptions": COMMON_ASSUMPTIONS + ["GcRestore hook events only serve as coverage evidence"],
     },
     "C32": {
